@@ -1124,7 +1124,7 @@ func E5Resources(c *core.Ctx, r *core.Report) {
 			return true
 		})
 	}
-	r.Floor("E5.resource-uses", 6)
+	r.Floor("E5.resource-uses", 4)
 	// the page dictionary carries exactly this resources dict
 	wp := core.MustFuncDecl(p, "pdfPageWriter.writePage")
 	okRes := false
@@ -3517,4 +3517,242 @@ func E5FunctionDictNeverEmpty(c *core.Ctx, r *core.Report) {
 	})
 	r.Count("E5.function-dict-never-empty", n)
 	r.Floor("E5.function-dict-never-empty", 3)
+}
+
+// E5NameMemoScope: a map that remembers resource names lives as long as the resources the names were registered in.
+func E5NameMemoScope(c *core.Ctx, r *core.Report) {
+	r.Rule("E5.name-memo-scope", "resource names (/F0, /A1, …) are defined per page, in the page writer's resources. Every map field that remembers such names (a store `x.F[k] = name` with a pdfName value) is therefore a field of the page writer that every page-writer literal initialises with a fresh map. A map that outlives the page (a field of the document writer, or a page field filled from one) is accepted only when the remembered name is numbered from that same map (`len(F)`, so names are unique in the document) and the function registers the name in the page's resources outside the branch taken on a miss; otherwise a later page either reuses a number its own counter hands out again (two fonts under /F0) or emits a name it never registered")
+	p := c.MustPkg(pdfRel)
+	info := p.TypesInfo
+	tn, _ := p.Types.Scope().Lookup("pdfName").(*types.TypeName)
+	if tn == nil {
+		panic(core.Infra("pdf.pdfName not found"))
+	}
+	// the page writer: the struct that owns the field `resources`
+	var pageT *types.Struct
+	for _, name := range p.Types.Scope().Names() {
+		if t, ok := p.Types.Scope().Lookup(name).(*types.TypeName); ok {
+			if st, ok := t.Type().Underlying().(*types.Struct); ok {
+				for i := 0; i < st.NumFields(); i++ {
+					if st.Field(i).Name() == "resources" {
+						pageT = st
+					}
+				}
+			}
+		}
+	}
+	if pageT == nil {
+		panic(core.Infra("the PDF page writer (struct with a field `resources`) was not found"))
+	}
+	ownedByPage := func(fv *types.Var) bool {
+		for i := 0; i < pageT.NumFields(); i++ {
+			if pageT.Field(i) == fv {
+				return true
+			}
+		}
+		return false
+	}
+	// freshInLiterals: every composite literal of the page writer gives fv a fresh map
+	freshInLiterals := func(fv *types.Var) (bool, string) {
+		seen := 0
+		bad := ""
+		for _, fd := range core.AllFuncDecls(p) {
+			if fd.Body == nil {
+				continue
+			}
+			ast.Inspect(fd.Body, func(m ast.Node) bool {
+				cl, ok := m.(*ast.CompositeLit)
+				if !ok {
+					return true
+				}
+				if st, ok := info.TypeOf(cl).Underlying().(*types.Struct); !ok || st != pageT {
+					return true
+				}
+				seen++
+				var val ast.Expr
+				for _, el := range cl.Elts {
+					if kv, ok := el.(*ast.KeyValueExpr); ok {
+						if k, ok := kv.Key.(*ast.Ident); ok && info.Uses[k] == fv {
+							val = kv.Value
+						}
+					}
+				}
+				switch v := core.Unparen(val).(type) {
+				case *ast.CompositeLit:
+				case *ast.CallExpr:
+					if id, ok := v.Fun.(*ast.Ident); !ok || id.Name != "make" {
+						bad = fmt.Sprintf("%s initialises it with `%s`", core.FuncName(fd), c.Src(val))
+					}
+				default:
+					if val == nil {
+						bad = core.FuncName(fd) + " does not initialise it"
+					} else {
+						bad = fmt.Sprintf("%s initialises it with `%s`, a map that outlives the page", core.FuncName(fd), c.Src(val))
+					}
+				}
+				return true
+			})
+		}
+		if seen == 0 {
+			return false, "no page-writer literal found"
+		}
+		return bad == "", bad
+	}
+	n := 0
+	for _, fd := range core.AllFuncDecls(p) {
+		if fd.Body == nil {
+			continue
+		}
+		ord := 0
+		ast.Inspect(fd.Body, func(m ast.Node) bool {
+			as, ok := m.(*ast.AssignStmt)
+			if !ok || len(as.Lhs) != 1 || len(as.Rhs) != 1 {
+				return true
+			}
+			ie, ok := core.Unparen(as.Lhs[0]).(*ast.IndexExpr)
+			if !ok {
+				return true
+			}
+			var fv *types.Var
+			switch x := core.Unparen(ie.X).(type) {
+			case *ast.SelectorExpr:
+				if s := info.Selections[x]; s != nil && s.Kind() == types.FieldVal {
+					fv, _ = s.Obj().(*types.Var)
+				}
+			case *ast.Ident:
+				// a package-level map outlives every page
+				if v, ok := info.Uses[x].(*types.Var); ok && v.Parent() == p.Types.Scope() {
+					fv = v
+				}
+			}
+			if fv == nil {
+				return true
+			}
+			mt, isMap := fv.Type().Underlying().(*types.Map)
+			if !isMap || !types.Identical(mt.Elem(), tn.Type()) {
+				return true
+			}
+			n++
+			ord++
+			key := fmt.Sprintf("pdf.%s|names remembered in %s #%d", core.FuncName(fd), fv.Name(), ord)
+			if ownedByPage(fv) {
+				if ok, why := freshInLiterals(fv); ok {
+					r.OK("E5.name-memo-scope", key, c.Pos(as.Pos()), fv.Name()+" is a page-writer field, fresh for every page")
+					return true
+				} else if why == "no page-writer literal found" {
+					r.Fail("E5.name-memo-scope", key, c.Pos(as.Pos()), why)
+					return true
+				}
+			}
+			// the map outlives the page: numbered from itself and registered on every path?
+			mapSrc := c.Src(ie.X)
+			numbered, registeredAlways := false, false
+			if id, ok := core.Unparen(as.Rhs[0]).(*ast.Ident); ok {
+				o := core.ObjOf(info, id)
+				ast.Inspect(fd.Body, func(k ast.Node) bool {
+					switch x := k.(type) {
+					case *ast.AssignStmt:
+						for i, l := range x.Lhs {
+							if lid, ok := l.(*ast.Ident); ok && core.ObjOf(info, lid) == o && i < len(x.Rhs) {
+								ast.Inspect(x.Rhs[i], func(q ast.Node) bool {
+									if call, ok := q.(*ast.CallExpr); ok && len(call.Args) == 1 {
+										if f, ok := call.Fun.(*ast.Ident); ok && f.Name == "len" && c.Src(call.Args[0]) == mapSrc {
+											numbered = true
+										}
+									}
+									return true
+								})
+							}
+						}
+					}
+					return true
+				})
+				// a store into resources[…][name] that is a statement of the function body itself or of a
+				// block not guarded by the lookup's ok flag: approximated as top-level in the body or in
+				// the same block as a statement that follows the miss branch
+				var walk func(list []ast.Stmt, underMiss bool)
+				walk = func(list []ast.Stmt, underMiss bool) {
+					for _, st := range list {
+						switch x := st.(type) {
+						case *ast.AssignStmt:
+							for _, l := range x.Lhs {
+								if lie, ok := core.Unparen(l).(*ast.IndexExpr); ok {
+									if kid, ok := core.Unparen(lie.Index).(*ast.Ident); ok && core.ObjOf(info, kid) == o && strings.Contains(c.Src(lie.X), "resources") && !underMiss {
+										registeredAlways = true
+									}
+								}
+							}
+						case *ast.IfStmt:
+							miss := underMiss
+							negated := false
+							if u, ok := core.Unparen(x.Cond).(*ast.UnaryExpr); ok && u.Op == token.NOT {
+								miss, negated = true, true
+							}
+							walk(x.Body.List, miss)
+							if eb, ok := x.Else.(*ast.BlockStmt); ok {
+								walk(eb.List, underMiss || !negated)
+							} else if x.Else == nil && !negated && allPathsReturn(x.Body) {
+								// `if n, ok := F[k]; ok { return n }`: what follows runs on a miss only
+								underMiss = true
+							}
+						case *ast.BlockStmt:
+							walk(x.List, underMiss)
+						}
+					}
+				}
+				walk(fd.Body.List, false)
+			}
+			switch {
+			case numbered && registeredAlways:
+				r.OK("E5.name-memo-scope", key, c.Pos(as.Pos()), fv.Name()+" outlives the page; names are numbered from it and registered on every path")
+			case !numbered:
+				r.Fail("E5.name-memo-scope", key, c.Pos(as.Pos()), fmt.Sprintf("`%s` remembers a resource name beyond the page (it is not a page-writer field that every page initialises afresh), but the name is not numbered from len(%s): the page's own counter hands the same number out again on a later page, and the remembered name then overwrites that page's entry (two fonts under one /F name)", c.Src(as.Lhs[0]), mapSrc))
+			default:
+				r.Fail("E5.name-memo-scope", key, c.Pos(as.Pos()), fmt.Sprintf("`%s` remembers a resource name beyond the page, and the name is registered in the page's resources only on a miss: a later page emits a name its /Resources do not define", c.Src(as.Lhs[0])))
+			}
+			return true
+		})
+	}
+	r.Count("E5.name-memos", n)
+	r.Floor("E5.name-memos", 1)
+}
+
+// E5SignedRounding: signed quantities written into a TJ array are rounded, not truncated.
+func E5SignedRounding(c *core.Ctx, r *core.Report) {
+	r.Rule("E5.signed-rounding", "pdfPageWriter.WriteText: the numbers of a TJ array are adjustments of either sign (kerning, reduced or enlarged advances, justification). Every conversion of a floating-point expression to an integer in that function takes a value already rounded by math.Round / Floor / Ceil / RoundToEven: `int(x + 0.5)` truncates toward zero and is the nearest integer only for x >= 0, a negative adjustment comes out up to one unit short and the pen drifts from the laid-out advances in one direction")
+	p := c.MustPkg(pdfRel)
+	info := p.TypesInfo
+	fd := core.MustFuncDecl(p, "pdfPageWriter.WriteText")
+	n := 0
+	ast.Inspect(fd.Body, func(m ast.Node) bool {
+		call, ok := m.(*ast.CallExpr)
+		if !ok || len(call.Args) != 1 {
+			return true
+		}
+		tv, ok := info.Types[call.Fun]
+		if !ok || !tv.IsType() {
+			return true
+		}
+		if bt, ok := tv.Type.Underlying().(*types.Basic); !ok || bt.Info()&types.IsInteger == 0 {
+			return true
+		}
+		at, ok := info.TypeOf(call.Args[0]).Underlying().(*types.Basic)
+		if !ok || at.Info()&types.IsFloat == 0 {
+			return true
+		}
+		if av, ok := info.Types[call.Args[0]]; ok && av.Value != nil {
+			return true
+		}
+		n++
+		key := fmt.Sprintf("pdf.pdfPageWriter.WriteText|float to integer #%d", n)
+		switch name, _ := core.MathFunc(info, call.Args[0]); name {
+		case "Round", "Floor", "Ceil", "RoundToEven":
+			r.OK("E5.signed-rounding", key, c.Pos(call.Pos()), "math."+name)
+		default:
+			r.Fail("E5.signed-rounding", key, c.Pos(call.Pos()), fmt.Sprintf("`%s` truncates toward zero: for a negative adjustment the result is not the nearest integer", c.Src(call)))
+		}
+		return true
+	})
+	r.Count("E5.signed-rounding-sites", n)
+	r.Floor("E5.signed-rounding-sites", 3)
 }
